@@ -176,7 +176,9 @@ class kMinPathErrorCycles(walkmodel.AbstractWalkModelDiGraph):
                 raise ValueError(f"you cannot set elements_to_ignore when elements_to_ignore_percentile is set.")
 
             # Select edges where the flow_attr value is >= elements_to_ignore_percentile (using self.G)
-            flow_values = [self.G.edges[edge][flow_attr] for edge in self.G.edges() if flow_attr in self.G.edges[edge]]
+            # Only the elements that count take part: in node-weighted mode the edges between the expanded nodes are ignored,
+            # also when the original edge happens to carry an attribute of the same name
+            flow_values = [self.G.edges[edge][flow_attr] for edge in self.G.edges() if flow_attr in self.G.edges[edge] and edge not in edges_to_ignore_internal]
             percentile = np.percentile(flow_values, elements_to_ignore_percentile) if flow_values else 0
             # In node-weighted mode, the edges of the expanded graph without flow attribute stay ignored
             edges_to_ignore_internal = list(edges_to_ignore_internal) + [edge for edge in self.G.edges() if flow_attr in self.G.edges[edge] and self.G.edges[edge][flow_attr] < percentile]
@@ -233,7 +235,7 @@ class kMinPathErrorCycles(walkmodel.AbstractWalkModelDiGraph):
                 raise ValueError(f"trusted_edges_for_safety_percentile must be between 0 and 100.")
 
             # Select edges where the flow_attr value is >= trusted_edges_for_safety_percentile (using self.G)
-            flow_values = [self.G.edges[edge][flow_attr] for edge in self.G.edges() if flow_attr in self.G.edges[edge]]
+            flow_values = [self.G.edges[edge][flow_attr] for edge in self.G.edges() if flow_attr in self.G.edges[edge] and edge not in self.edges_to_ignore]
             percentile = np.percentile(flow_values, trusted_edges_for_safety_percentile) if flow_values else 0
             self.trusted_edges_for_safety = list(edge for edge in self.G.edges() if flow_attr in self.G.edges[edge] and self.G.edges[edge][flow_attr] >= percentile)
             # Remove from trusted_edges_for_safety the edges in edges_to_ignore
